@@ -566,6 +566,8 @@ type ReplayFile struct {
 	// goroutines of its own, which the scheduler does not own): the replay
 	// reproduces the violation only with the stated frequency.
 	Statistical string `json:"statistical_replay,omitempty"`
+	// ReplayWholeRun: ignore payload_hex and regenerate the run from run_seed.
+	ReplayWholeRun bool `json:"replay_whole_run,omitempty"`
 }
 
 // replayer runs replay requests, either each in a fresh worker process
@@ -752,7 +754,28 @@ func processViolation(e Engine, opt *Options, c *violCase) (string, string) {
 func processPayloadViolation(e Engine, opt *Options, c *violCase, rf *ReplayFile, fresh, persistent *replayer) (string, string) {
 	ok, _, sample, detail := reproduces(e, fresh, c, nil, false)
 	if !ok {
-		return "", "payload did not reproduce in a fresh process"
+		// The single (decoder, input) pair does not fail on its own: the failure
+		// depends on what the same process decoded before it (state the library
+		// keeps between calls). Replay the whole run from its seed instead.
+		whole := *c
+		whole.payload = nil
+		for i := 0; i < 2; i++ {
+			if ok, _, _, _ := reproduces(e, fresh, &whole, nil, false); !ok {
+				return "", "neither the payload nor the whole run reproduced in a fresh process"
+			}
+		}
+		rf.Note = "history-dependent: the input alone does not fail in a fresh process; the replay regenerates the whole run (all records and faults) from run_seed, which does"
+		rf.Payload = hex.EncodeToString(c.payload)
+		rf.Violation.Payload = nil
+		rf.ReplayWholeRun = true
+		b, _ := json.MarshalIndent(rf, "", " ")
+		h := sha256.Sum256(b)
+		os.MkdirAll(opt.ReplayDir, 0o755)
+		path := filepath.Join(opt.ReplayDir, fmt.Sprintf("%s-%d-%s.json", e.ID(), c.seed, hex.EncodeToString(h[:4])))
+		if err := os.WriteFile(path, b, 0o644); err != nil {
+			return "", "cannot write replay file: " + err.Error()
+		}
+		return path, "confirmed"
 	}
 	rf.Scenario = sample
 	if detail != "" {
@@ -825,7 +848,7 @@ func replayMain(e Engine, args []string) int {
 	}
 	opt.Tier = rf.Tier
 	c := &violCase{idx: rf.Idx, seed: rf.Seed, v: rf.Violation, death: rf.Death}
-	if rf.Payload != "" {
+	if rf.Payload != "" && !rf.ReplayWholeRun {
 		c.payload, _ = hex.DecodeString(rf.Payload)
 	}
 	ok, _, _, detail := reproduces(e, &replayer{opt: &opt, fresh: true}, c, rf.Trace, rf.Trace != nil)
